@@ -53,6 +53,7 @@ let print_tok b (t : tok) =
   | TErr k -> Buffer.add_char b 'E'; Buffer.add_string b (string_of_z k)
   | TNoSpec -> Buffer.add_char b '*'
   | TSign neg -> Buffer.add_string b (if neg then "<0" else ">=0")
+  | TErrAny -> Buffer.add_char b 'E'
 
 let print_toks b ts =
   List.iteri (fun i t -> if i > 0 then Buffer.add_char b ' '; print_tok b t) ts
